@@ -207,7 +207,7 @@ def check_property(pid, tier, seed, replay_only=None):
         log(str(e)); log('check %s: harness does not build against this tree' % pid); return 2
     Builder.prune()
     unit_by_name = {u['name']: u for u in all_units}
-    violations = []; known_hit = {}; notes = []; seen_kinds = set()
+    violations = []; known_hit = {}; notes = []; seen_kinds = set(); crashed_props = set()
     workdir = os.path.join(builder.dir, 'run-%s-%s-%d' % (pid, tier, os.getpid())); os.makedirs(workdir, exist_ok=True)
 
     def report_failure(unit, f, confirmed_path=None):
@@ -294,6 +294,10 @@ def check_property(pid, tier, seed, replay_only=None):
             try: cj = json.loads(cr) if cr else None
             except Exception: cj = None
             died = 'died:cpu-budget' if rc == 97 else 'died:exit-%s' % rc
+            ckey = (u['name'], (cj or {}).get('prop') or (cj or {}).get('sweep'))
+            if cj and ckey in crashed_props:
+                continue          # another shard already delivered a dying case of this property function
+            crashed_props.add(ckey)
             if cj and 'gen_seed' in cj:
                 rc2, so2, se2, _ = run_proc([bins[u['name']], '--regen', '%s:%d:%d' % (cj['prop'], cj['gen_seed'], cj['size']), '--isolate', '--crumb', crumb + '.regen', '--cpu', str(u.get('cpu', 20))] + u.get('args', []), 600)
                 try:
